@@ -299,6 +299,7 @@ struct Obs {
     restarts: u64,
     reboots: u64,
     suspends: u64,
+    polls_with_short_phc_reads: u64,
     answers_without_a_system_clock_read: u64,
     polls: u64,
     order_checks: u64,
@@ -433,6 +434,14 @@ impl Sim {
     #[allow(clippy::too_many_arguments)]
     fn poll(&mut self, a: &Args, prop: &str, step: Step, rng: &mut Rng, obs: &mut Obs, violations: &mut Vec<Value>, history: &[String]) -> Result<(), String> {
         obs.polls += 1;
+        // The PHC error-bound attribute sometimes arrives in pieces (short reads of 1-3 bytes).
+        if let Some(phc) = self.phc.as_ref() {
+            let n = if rng.chance(1, 6) { 1 + rng.below(3) as usize } else { 0 };
+            vworld::meter::short_reads_of(phc.sysfs_error_bound_path.to_str().unwrap(), n);
+            if n > 0 {
+                obs.polls_with_short_phc_reads += 1;
+            }
+        }
         let (mut mailbox, dbox) = new_channel_web::<ChannelId, Message>(vec![ChannelId::ClockErrorBoundPoller, ChannelId::ShmWriter]);
         let pmbox = mailbox.get_mailbox(&ChannelId::ClockErrorBoundPoller).unwrap();
         let smbox = mailbox.get_mailbox(&ChannelId::ShmWriter).unwrap();
@@ -856,7 +865,7 @@ pub fn run(mode: &str, a: &Args) -> Value {
     }
     let mut v = json!({
         "evaluations": evaluations, "distinct": distinct.len(), "polls": obs.polls, "answers_by_status": obs.answers_by_status, "outcomes_by_kind": obs.outcomes_by_kind,
-        "adversarial_instants": obs.adversarial_instants, "min_margin_ns": obs.min_margin_ns.map(|m| m.to_string()), "restarts": obs.restarts, "reboots": obs.reboots, "suspends": obs.suspends, "answers_without_a_system_clock_read": obs.answers_without_a_system_clock_read,
+        "adversarial_instants": obs.adversarial_instants, "min_margin_ns": obs.min_margin_ns.map(|m| m.to_string()), "restarts": obs.restarts, "reboots": obs.reboots, "suspends": obs.suspends, "polls_with_short_phc_reads": obs.polls_with_short_phc_reads, "answers_without_a_system_clock_read": obs.answers_without_a_system_clock_read,
         "trusted_in_sync_phase": obs.trusted_in_sync_phase, "answers_in_sync_phase": obs.answers_in_sync_phase, "order_checks": obs.order_checks, "gap_checks": obs.gap_checks,
         "msg_checks": obs.msg_checks, "client_errors": obs.client_errors, "violations": violations, "samples": samples,
     });
